@@ -11,8 +11,10 @@ EXTENDS IggyCatalogue, Json, IOUtils
 
 Rec == ndJsonDeserialize(IOEnv.TRACE)
 
-VARIABLES l, dead, bad
-tvars == <<vars, l, dead, bad>>
+VARIABLES l, dead, bad,
+          tsets    \* the SETTINGS of every topic (compression, expiry, size limit, replication factor as the get calls must show
+                   \* them): set by an acknowledged create_topic / update_topic, gone with the topic, untouched by anything else
+tvars == <<vars, l, dead, bad, tsets>>
 
 Ok(e) == e.res = "ok"
 SetOf(seq) == { seq[i] : i \in 1..Len(seq) }
@@ -87,8 +89,18 @@ Diff(name, obsSet, specSet) ==
     ELSE {<<name, IF obsSet \ specSet # {} THEN CHOOSE x \in obsSet \ specSet : TRUE ELSE <<>>,
                   IF specSet \ obsSet # {} THEN CHOOSE x \in specSet \ obsSet : TRUE ELSE <<>> >>}
 
+(* the settings after the step: an update replaces all of them (that is what update_topic names), a restart none *)
+SetsAfter(e) ==
+    LET alive == { x \in tsets : \E t \in T' : t[1] = x[1] /\ t[2] = x[2] }
+        done == Ok(e) /\ Applicable(e) /\ "set" \in DOMAIN e
+        key == IF ~done THEN <<NoId, NoId>> ELSE IF e.ev = "create_topic" THEN <<Sid(e), e.rid>> ELSE <<Sid(e), Tid(e)>>
+    IN  IF done /\ e.ev \in {"create_topic", "update_topic"}
+        THEN { x \in alive : <<x[1], x[2]>> # key } \cup {<<key[1], key[2], e.set>>}
+        ELSE alive
+
 SweepLabels(e) ==
     LET ob == e.obs IN
+    Diff("CAT.settings", SetOf(ob.Tset), SetsAfter(e)) \cup
     Diff("CAT.streams", SetOf(ob.S), S')
     \cup Diff("CAT.topics", SetOf(ob.T), T')
     \cup Diff("CAT.groups", SetOf(ob.G), G')
@@ -103,25 +115,25 @@ SweepLabels(e) ==
 
 Reset(e) ==
     /\ S' = {} /\ T' = {} /\ G' = {} /\ Cnt' = {} /\ Mem' = {}
-    /\ U' = {<<1, "iggy", TRUE>>}
+    /\ U' = {<<1, "iggy", TRUE>>} /\ tsets' = {}
     /\ dead' = FALSE /\ bad' = {}
 
 (* two clients at once (specs/IggyCatalogueMT.tla): both commands were acknowledged; the restart must succeed and reproduce *)
 (* the catalogue, whatever order the two entries reached the journal in                                                    *)
 Race(e) ==
-    /\ UNCHANGED vars /\ dead' = TRUE
+    /\ UNCHANGED <<vars, tsets>> /\ dead' = TRUE
     /\ bad' = IF e.acks[1] = "ok" /\ e.acks[2] = "ok" /\ (e.restart # "ok" \/ ~e.same)
               THEN {<<"C05.concurrent_history_not_reproduced", e.pair, e.forced, e.restart>>} ELSE {}
 
-Fatal(e) == UNCHANGED vars /\ dead' = TRUE /\ bad' = {<<"X.fatal", e.ev, e.fatal>>}
-Skip == UNCHANGED <<vars, dead>> /\ bad' = {}
+Fatal(e) == UNCHANGED <<vars, tsets>> /\ dead' = TRUE /\ bad' = {<<"X.fatal", e.ev, e.fatal>>}
+Skip == UNCHANGED <<vars, dead, tsets>> /\ bad' = {}
 
 Step(e) ==
     /\ IF (Ok(e) /\ Applicable(e)) \/ e.ev \in {"restart", "disconnect", "expire"} THEN Effect(e) ELSE Refused
-    /\ dead' = dead
+    /\ dead' = dead /\ tsets' = SetsAfter(e)
     /\ bad' = InputLabels(e) \cup SweepLabels(e)
 
-TraceInit == l = 1 /\ dead = TRUE /\ bad = {} /\ S = {} /\ T = {} /\ G = {} /\ Cnt = {} /\ U = {} /\ Mem = {}
+TraceInit == l = 1 /\ dead = TRUE /\ bad = {} /\ tsets = {} /\ S = {} /\ T = {} /\ G = {} /\ Cnt = {} /\ U = {} /\ Mem = {}
 
 TraceNext ==
     /\ l <= Len(Rec)
